@@ -52,12 +52,12 @@ Proof. intros H E. subst. unfold fbits_eqb in H. destruct (Prim2SF b) as [s|s| |
   rewrite ?Bool.eqb_reflx, ?Pos.eqb_refl, ?Z.eqb_refl in H; discriminate. Qed.
 
 Definition u13 : mval (T := Q) :=
-  MT [TPhi; TShift 1%float 2%float] None 1%float 3%float (mkmsg FNormal true [[0; 1]] 0 0%Z neg_infinity infinity).
+  MT [TPhi; TShift 1 2] None 1%float 3%float (mkmsg FNormal true [[0; 1]] 0 0%Z neg_infinity infinity).
 
 Lemma transformed_limits_refuted : exists (env : list (mval (T := Q))) (e : expr (T := Q)) v v0,
   eval Qops pinned env e = Some v /\ nth_error env (leftvar e) = Some v0 /\ tlimits v <> tlimits v0.
 Proof.
-  exists [u13], (EPow (EVar 0) 1), (MT [TPhi; TShift 1%float 2%float] None neg_infinity infinity
+  exists [u13], (EPow (EVar 0) 1), (MT [TPhi; TShift 1 2] None neg_infinity infinity
                                   (b_pow Qops (mkmsg FNormal true [[0; 1]] 0 0%Z neg_infinity infinity) 1)), u13.
   split; [reflexivity | split; [reflexivity|]].
   cbn. intro H. injection H as H1 H2. revert H1. apply float_neq. vm_compute. reflexivity.
@@ -71,7 +71,7 @@ Proof. vm_compute. reflexivity. Qed.
 (* ---------- binary64 witnesses ---------- *)
 Local Close Scope Q_scope.
 Definition tb0 : tabs :=
-  mktabs [(0.5%float, 0.25%float); (0.25%float, 0.0625%float); (1%float, 1%float); (2%float, 4%float); (infinity, infinity)] [] [] [] [] [].
+  mktabs [(0.5%float, 0.25%float); (0.25%float, 0.0625%float); (1%float, 1%float); (2%float, 4%float); (infinity, infinity)] [] [] [] [] [] [] [] [].
 Definition n1 : msg (T := float) := mkmsg FNormal true [[1%float; 0.5%float]] 0%float 7%Z neg_infinity infinity.
 Definition un1 : mval (T := float) := MT [TPhi] None neg_infinity infinity n1.
 
@@ -99,3 +99,10 @@ Example normal_positive_power_back :
   opt_eqb mval_eqb (eval (fops true tb0) pinned [MB n1] (EPow (EPow (EVar 0) 4%float) 0.25%float)) (Some (MB n1)) = true.
 Proof. vm_compute. reflexivity. Qed.
 
+
+(* the model computes: Normal(0,1) * Normal(0,1) = Normal(0, sqrt(1/2)) bit for bit *)
+Example n_times_n :
+  elems (b_sum (fops true tb0) (mkmsg FNormal true [[0%float; 1%float]] 0%float 1%Z neg_infinity infinity)
+               [mkmsg FNormal true [[0%float; 1%float]] 0%float 2%Z neg_infinity infinity])
+  = [[0%float; 0x1.6a09e667f3bcdp-1%float]].
+Proof. vm_compute. reflexivity. Qed.
